@@ -14,7 +14,7 @@ import (
 const (
 	DecNameConflict = "KF-DEC-field-name-conflict"
 	DecStringTag    = "KF-DEC-string-tag-on-unsupported-kind"
-	DecCaseFoldKey  = "KF-DEC-case-insensitive-key-match"
+	DecCaseFoldKey  = "FX-DEC-case-insensitive-key-match" // fixed: the selector can never be active again
 	DecSliceReuse   = "KF-DEC-slice-reuse-null-element"
 )
 
